@@ -48,8 +48,18 @@ pub trait Read<'de>: private::Sealed {
 
     /// Consuming `n` number of bytes
     fn read_bytes(&mut self, n: usize) -> Result<Vec<u8>, io::Error> {
-        let mut buf = vec![0u8; n];
-        self.read_exact(&mut buf)?;
+        // `n` usually comes from a size field on the wire: grow the buffer as the bytes
+        // actually arrive instead of allocating whatever the size field claims
+        const CHUNK: usize = 4096;
+        let mut buf = Vec::with_capacity(n.min(CHUNK));
+        let mut chunk = [0u8; CHUNK];
+        let mut remaining = n;
+        while remaining > 0 {
+            let k = remaining.min(CHUNK);
+            self.read_exact(&mut chunk[..k])?;
+            buf.extend_from_slice(&chunk[..k]);
+            remaining -= k;
+        }
         Ok(buf)
     }
 
